@@ -69,6 +69,16 @@ pub enum AdaptiveCase {
         #[serde(default)]
         hold: Option<u64>,
     },
+    /// clones of one limiter used from several threads at once; every atomic step of the service
+    /// (readiness check, admission, release) and of the algorithm is a scheduling point.
+    /// Per thread, ops: 0 = call and run to completion, 1 = call and keep the (never completing)
+    /// call alive until everything has finished, 2 = call and drop the future unpolled,
+    /// 3 = call, poll once (pending), drop, 4 = call that fails
+    Threads {
+        vegas: bool,
+        threads: Vec<Vec<u8>>,
+        schedule: Vec<u8>,
+    },
 }
 
 fn bounds() -> BoxedStrategy<(usize, usize, usize)> {
@@ -162,7 +172,20 @@ fn case_strategy(tier: Tier) -> BoxedStrategy<AdaptiveCase> {
                 hold,
             }
         });
-    prop_oneof![3 => sched_case, 2 => sim_case].boxed()
+    let threads_case = (
+        any::<bool>(),
+        prop::collection::vec(prop::collection::vec(0u8..=4, 1..=3), 2..=3),
+        prop_oneof![
+            prop::collection::vec(prop_oneof![5 => 0u8..160, 1 => 160u8..=255], 0..=200),
+            prop::collection::vec(any::<u8>(), 0..=200),
+        ],
+    )
+        .prop_map(|(vegas, threads, schedule)| AdaptiveCase::Threads {
+            vegas,
+            threads,
+            schedule,
+        });
+    prop_oneof![3 => sched_case, 2 => sim_case, 1 => threads_case].boxed()
 }
 
 fn latency_for(fb: Fb, threshold_ms: u64) -> Duration {
@@ -580,8 +603,118 @@ async fn run_sim_generic<A: ConcurrencyAlgorithm + 'static>(
     }
 }
 
+/// Several threads use clones of one limiter at once (see `AdaptiveCase::Threads`). Oracle, at
+/// quiescence: the reported in-flight count equals the number of call futures still alive, and
+/// is zero once those are dropped too.
+fn run_threads<A: ConcurrencyAlgorithm + 'static>(algorithm: A, threads: &[Vec<u8>], schedule: &[u8]) -> Report {
+    use std::future::Future;
+    let mut r = Report::default();
+    // inner service: request 1 never completes, request 4 fails, everything else is ready at once
+    let inner = tower::service_fn(|kind: u8| async move {
+        if kind == 1 || kind == 3 {
+            futures::future::pending::<()>().await;
+        }
+        if kind == 4 {
+            Err::<u8, u8>(kind)
+        } else {
+            Ok::<u8, u8>(kind)
+        }
+    });
+    let layer = AdaptiveLimiterLayer::new(algorithm);
+    let base = tower::Layer::layer(&layer, inner);
+    type Held = std::pin::Pin<Box<dyn Future<Output = Result<u8, AdaptiveError<u8>>> + Send>>;
+    let held: Arc<Mutex<Vec<Held>>> = Arc::new(Mutex::new(vec![]));
+    let refused = Arc::new(Mutex::new(0usize));
+    let mut bodies: Vec<Box<dyn FnOnce() + Send>> = vec![];
+    for ops in threads {
+        let mut svc = base.clone();
+        let ops = ops.clone();
+        let held = held.clone();
+        let refused = refused.clone();
+        bodies.push(Box::new(move || {
+            let waker = futures::task::noop_waker();
+            let mut cx = std::task::Context::from_waker(&waker);
+            for &op in &ops {
+                match svc.poll_ready(&mut cx) {
+                    Poll::Ready(Ok(())) => {}
+                    _ => {
+                        *refused.lock().unwrap() += 1;
+                        continue;
+                    }
+                }
+                let mut fut: Held = Box::pin(svc.call(op));
+                match op {
+                    0 | 4 => {
+                        let _ = fut.as_mut().poll(&mut cx);
+                    }
+                    1 => {
+                        let _ = fut.as_mut().poll(&mut cx);
+                        held.lock().unwrap().push(fut);
+                    }
+                    2 => drop(fut),
+                    _ => {
+                        let _ = fut.as_mut().poll(&mut cx);
+                        drop(fut);
+                    }
+                }
+            }
+        }));
+    }
+    let outcome = sched::explore(bodies, schedule, |_view| None);
+    if let Some(p) = outcome.panic {
+        r.fail(format!("limiter operation panicked: {p}"));
+    }
+    let alive = held.lock().unwrap().len();
+    let reported = base.in_flight();
+    if reported != alive {
+        r.fail(format!(
+            "after {} atomic steps on {} threads ({} preemptions): {alive} calls are still running but the limiter reports {reported} in flight",
+            outcome.steps,
+            threads.len(),
+            outcome.preemptions
+        ));
+    }
+    held.lock().unwrap().clear();
+    let after = base.in_flight();
+    if after != 0 && r.violation.is_none() {
+        r.fail(format!(
+            "every call has completed, failed or been dropped but the limiter reports {after} in flight"
+        ));
+    }
+    r.nontrivial = outcome.preemptions > 0 && alive > 0;
+    r.class("threads_on_one_limiter");
+    if outcome.preemptions > 0 {
+        r.class("preemption_inside_admission_or_release");
+    }
+    if *refused.lock().unwrap() > 0 {
+        r.class("readiness_refused_on_a_thread");
+    }
+    r.trace = json!({"atomic_steps": outcome.steps, "preemptions": outcome.preemptions, "alive_at_end": alive, "reported": reported});
+    r
+}
+
 pub fn run_case(case: &AdaptiveCase) -> Report {
     match case {
+        AdaptiveCase::Threads {
+            vegas,
+            threads,
+            schedule,
+        } => {
+            if *vegas {
+                run_threads(Vegas::builder().initial_limit(8).min_limit(1).max_limit(16).build(), threads, schedule)
+            } else {
+                run_threads(
+                    Aimd::builder()
+                        .initial_limit(8)
+                        .min_limit(1)
+                        .max_limit(16)
+                        .latency_threshold(Duration::from_millis(50))
+                        .build(),
+                    threads,
+                    schedule,
+                )
+            }
+        }
         AdaptiveCase::Sched {
             algo,
             threads,
